@@ -92,6 +92,20 @@ class _SubProxy(object):
         return getattr(self._r, n)
 
 
+class _UfuncShim(object):
+    """Callable replacement of a ufunc without object loop that still exposes the
+    ufunc's attributes (nin, nout, types, ...), which ODL inspects."""
+
+    def __init__(self, real, call):
+        self._real, self._call = real, call
+
+    def __call__(self, *a, **k):
+        return self._call(*a, **k)
+
+    def __getattr__(self, n):
+        return getattr(self._real, n)
+
+
 class NPProxy(object):
     def __init__(self, real=np):
         self._r = real
@@ -154,14 +168,17 @@ class NPProxy(object):
             return r if r.ndim else bool(r)
         return getattr(self._r, name)(x, **k)
 
-    def isnan(self, x, **k):
-        return self._pred('isnan', x, False, **k)
+    @property
+    def isnan(self):
+        return _UfuncShim(self._r.isnan, lambda x, **k: self._pred('isnan', x, False, **k))
 
-    def isinf(self, x, **k):
-        return self._pred('isinf', x, False, **k)
+    @property
+    def isinf(self):
+        return _UfuncShim(self._r.isinf, lambda x, **k: self._pred('isinf', x, False, **k))
 
-    def isfinite(self, x, **k):
-        return self._pred('isfinite', x, True, **k)
+    @property
+    def isfinite(self):
+        return _UfuncShim(self._r.isfinite, lambda x, **k: self._pred('isfinite', x, True, **k))
 
     def isreal(self, x):
         if is_sym(x):
@@ -405,6 +422,8 @@ class NPProxy(object):
     def bincount(self, x, weights=None, minlength=0):
         if is_sym(weights):
             _used('np.bincount')
+            if hasattr(weights, 'space'):
+                weights = weights.asarray()
             x = self._r.asarray(x)
             n = max(int(x.max()) + 1 if x.size else 0, minlength)
             w = to_object_array(weights)
@@ -471,9 +490,6 @@ class NPProxy(object):
         if is_symscalar(x):
             return x.imag
         return self._r.imag(x)
-
-    def conj(self, x, *a, **k):
-        return self._r.conj(x, *a, **k)
 
     def ndim(self, x):
         if is_symscalar(x):
@@ -691,6 +707,76 @@ def install(extra=(), exclude=()):
         if d.get('numpy') is np and (name not in NOPROXY or name in extra):
             d['numpy'] = PROXY
     _patch_element_dtype()
+    _patch_formatting()
+    _patch_writable_array()
+
+
+_orig_writable_array = None
+
+
+def _patch_writable_array():
+    """odl.util.utility.writable_array uses the real numpy.asarray, which strips the
+    SymArray subclass (and with it the claimed dtype); serve a symbol-aware twin with
+    the same contract (yield an array view, write back on exit)."""
+    global _orig_writable_array
+    import contextlib
+    import odl.util.utility as U
+    if _orig_writable_array is None:
+        _orig_writable_array = U.writable_array
+
+    @contextlib.contextmanager
+    def writable_array(obj, **kwargs):
+        arr = None
+        try:
+            if is_sym(obj):
+                arr = PROXY.asarray(obj, **kwargs)
+            else:
+                arr = np.asarray(obj, **{k: _xlate(v) for k, v in kwargs.items()})
+            yield arr
+        finally:
+            if arr is not None:
+                obj[:] = arr
+    writable_array._symnp = True
+    for name, mod in list(sys.modules.items()):
+        if mod is None or not (name == 'odl' or name.startswith('odl.')):
+            continue
+        d = mod.__dict__
+        if d.get('writable_array') is _orig_writable_array:
+            d['writable_array'] = writable_array
+
+
+_FMT_NAMES = ('signature_string', 'signature_string_parts', 'array_str', 'repr_string', 'attribute_repr_string',
+              'method_repr_string', 'dtype_repr', 'dtype_str')
+_fmt_wrapped = {}
+
+
+def _patch_formatting():
+    """repr()/str() of ODL objects that hold symbols (only used in messages) return placeholders."""
+    import odl.util.utility as U
+    for nm in _FMT_NAMES:
+        orig = getattr(U, nm, None)
+        if orig is None or getattr(orig, '_symnp', False):
+            continue
+
+        def mk(orig, nm):
+            def safe(*a, **k):
+                try:
+                    return orig(*a, **k)
+                except EngineGap:
+                    if nm == 'signature_string_parts':
+                        return ['<symbolic>'], []
+                    return '<symbolic>'
+            safe._symnp = True
+            safe.__name__ = nm
+            return safe
+        _fmt_wrapped[nm] = (orig, mk(orig, nm))
+    for name, mod in list(sys.modules.items()):
+        if mod is None or not (name == 'odl' or name.startswith('odl.')):
+            continue
+        d = mod.__dict__
+        for nm, (orig, safe) in _fmt_wrapped.items():
+            if d.get(nm) is orig:
+                d[nm] = safe
 
 
 _orig_tensor_dtype = None
